@@ -6,11 +6,14 @@ from ..engine import pyflow, tables
 from ..engine.pyindex import walk_no_nested, is_self_attr
 from ..rules import tree as tree_rules
 from ..rules.pC07 import Eval, Obj, Unsupported, Method, RepoFn
+from ..rules import sC40
 
 ID = 'C40'
 TECHNIQUE = ('decision-table extraction: TypeInference.safe_spanning_type, the handlers of MarkOverflowingArithmetic and NameNode.infer_type are evaluated over '
              'their COMPLETE finite abstract domains (type kind flags x might_overflow; every operator of ExprNodes.binop_node_classes; handler resolution by '
-             'the MRO dispatch of the visitor); path-sensitive save/restore dataflow (V3) on self.might_overflow; call-site and pipeline-order checks')
+             'the MRO dispatch of the visitor); path-sensitive save/restore dataflow (V3) on self.might_overflow; call-site and pipeline-order checks; '
+             'pair table of the spanning-type computation (find_spanning_type -> PyrexTypes.spanning_type -> widest_numeric_type / result_type_of_builtin_operation, '
+             'evaluated by the checker over all ordered pairs of pure-Python value kinds)')
 DECIDES = ('(a) C40-SST: for every C integer / enum kind that is not bint (plain, unsigned, Py_UCS4-like, enum, with or without an equivalent Python type) and might_overflow=True, '
            'safe_spanning_type does not return the C type but a Python object type; '
            '(b) C40-V3: every method of MarkOverflowingArithmetic that rebinds self.might_overflow saved the old value first and restores it on every normal exit; '
@@ -19,14 +22,20 @@ DECIDES = ('(a) C40-SST: for every C integer / enum kind that is not bint (plain
            '(given or looked up) when the flag is set; V1 for the two marking visitors; '
            '(d) C40-WIRE: infer_types=None is the default directive value, selects safe_spanning_type, every spanning_type(...) call in SimpleAssignmentTypeInferer.infer_types passes '
            '<entry>.might_overflow in the parameter position safe_spanning_type names might_overflow, and MarkOverflowingArithmetic runs in the pipeline before the transform that calls infer_types(); '
-           '(e) C40-NAME: NameNode.infer_type does not hand out the locally inferred C integer type of an object-typed entry that might overflow.')
-NOT_DECIDED = ('the spanning-type computation (find_spanning_type / PyrexTypes.spanning_type), which assignments are collected (MarkParallelAssignments, control flow), result types of '
+           '(e) C40-NAME: NameNode.infer_type does not hand out the locally inferred C integer type of an object-typed entry that might overflow; '
+           '(f) C40-BOOL (rules/sC40.py): for every pure-Python value kind X other than bint (C integers of the literal / len() / range() ranks, Py_UCS4, C float / double / long double, '
+           'C double complex, builtin int / float / complex / str, object) safe_spanning_type([bint, X]), ([X, bint]), ([X, X, bint]) and ([bint, X, X]) is a Python object type, '
+           'and [bint, bint] is bint: a variable that is a bool on one path never becomes a C number.')
+NOT_DECIDED = ('the spanning-type computation for pairs without a bool (C40-PYTYPE, the general "the chosen C type has the Python type of every merged kind" table, is written but NOT armed: '
+               'it reports int+float -> C double etc. on the unmodified tree, pending finding), which assignments are collected (MarkParallelAssignments, control flow), result types of '
                'arithmetic nodes, everything value-dependent; definedness-aware inference (known finding K4, rule of C21e) is not re-checked here; float/double inference '
                '(documented as safe) and the aggressive mode are outside the property.')
 ASSUMPTIONS = [
     'type stubs: every is_* flag that a scenario does not set is 0 (class default of PyrexType); integer-like kinds coerce to Python objects (can_coerce_to_pyobject is True)',
     'the scenario type is already simple: PyrexTypes.remove_cv_ref is modelled as the identity and reduce(f, [T]) as T (one assignment)',
     'Visitor dispatch is nominal along the MRO of the node class (pyindex.visitor_handler mirrors TreeVisitor._find_handler)',
+    'C40-BOOL: type stubs carry the rank / signedness folded from the `c_xxx_type = Ctor(rank, signed)` singletons of PyrexTypes.py and the is_* flags of their classes; '
+    'kinds that cannot arise from pure-Python code (pointers, structs, enums, memoryviews, C++ classes) are outside the domain',
 ]
 EXEMPT = {}
 
@@ -53,7 +62,16 @@ MUTATIONS = [
     ('Cython/Compiler/ExprNodes.py', 'NameNode.infer_type: `if not (self.inferred_type.is_int and self.entry.might_overflow)` -> `if True`', 'C40-NAME: caught'),
     ('Cython/Compiler/TypeInference.py', 'visit_Node = visit_neutral_node (over-marking only, conservative)', 'silent, correctly'),
     ('Cython/Compiler/TypeInference.py', 'safe_spanning_type / class MarkOverflowingArithmetic renamed', 'ANALYSIS-ERROR (anchor)'),
+    # --- C40-BOOL (rules/sC40.py), tried on /tmp/strengthen/G9/scr
+    ('Cython/Compiler/TypeInference.py', 'seed C40b: bint guard of find_spanning_type narrowed to `bint and other.is_int`', 'C40-BOOL bint+{C float, C double, C double complex, Python float, Python complex}: caught'),
+    ('Cython/Compiler/TypeInference.py', 'find_spanning_type: `type1 is c_bint_type or type2 is c_bint_type` -> `... and ...`', 'C40-BOOL (every numeric kind): caught'),
+    ('Cython/Compiler/TypeInference.py', 'find_spanning_type: the bint branch disabled (`elif False:`)', 'C40-BOOL (every numeric kind): caught'),
+    ('Cython/Compiler/TypeInference.py', 'find_spanning_type: only `type1 is c_bint_type` tested (one assignment order)', 'C40-BOOL, orders [X, bint] / [X, X, bint]: caught'),
+    ('Cython/Compiler/TypeInference.py', 'safe_spanning_type: `reduce(find_spanning_type, types)` "simplified" to `reduce(PyrexTypes.spanning_type, types)`', 'C40-BOOL: caught'),
+    ('Cython/Compiler/PyrexTypes.py', 'spanning_type: the `py_object_type` early return dropped (same table: _spanning_type answers py_object_type)', 'silent, correctly'),
     # behaviour preserving (all silent)
+    ('Cython/Compiler/TypeInference.py', 'find_spanning_type: bint test rewritten `PyrexTypes.c_bint_type in (type1, type2)`', None),
+    ('Cython/Compiler/TypeInference.py', 'find_spanning_type: parameters renamed, bint test hoisted into an early return in De Morgan form', None),
     ('Cython/Compiler/TypeInference.py', 'visit_safe_node rewritten with `saved = self.might_overflow; self.might_overflow = False; ...; self.might_overflow = saved`', None),
     ('Cython/Compiler/TypeInference.py', "visit_BinopNode: `if node.operator not in ('&', '|', '^'): return dangerous; return neutral`", None),
     ('Cython/Compiler/TypeInference.py', 'safe_spanning_type: local result_type renamed rt, is_ptr / is_cpp_class clauses swapped', None),
@@ -497,4 +515,5 @@ def run(ctx):
     v1.id = 'C40-V1'
     for f in v1.findings:
         f.rule = 'C40-V1'
-    return [rule_SST(ctx), rule_V3(ctx, vis), rule_OPS(ctx, vis), v1, rule_WIRE(ctx, vis), rule_NAME(ctx)]
+    # sC40.rule_PYTYPE(ctx) -- pending finding (FINDING_1: int+float / int+complex / int+Py_UCS4 are merged to a C type on the unmodified tree)
+    return [rule_SST(ctx), rule_V3(ctx, vis), rule_OPS(ctx, vis), v1, rule_WIRE(ctx, vis), rule_NAME(ctx), sC40.rule_BOOL(ctx)]
